@@ -53,6 +53,12 @@ def run(tier, seed, factor=1):
         outs += rulecheck.collect(seed * 41 + 3, common.scale(tier, 160, 2000) * factor, N)
     finally:
         rulecheck.EXTRA = None
+    # providers that hand out explicit zero entries where a class has no objects (what is read must not depend on that)
+    rulecheck.EXTRA = "zeros"
+    try:
+        outs += rulecheck.collect(seed * 47 + 7, common.scale(tier, 160, 2000) * factor, N)
+    finally:
+        rulecheck.EXTRA = None
     lines = [o["line"] for o in outs if "line" in o and "exc" not in o]
     lean = common.run_driver("Spec", "\n".join(lines) + "\n") if lines else []
     k = 0
